@@ -48,9 +48,15 @@ def _get_def_from_ast_container(container, name, node_type):
 
 
 @lru_cache
-def _get_ast_for_file(filename):
+def _get_source_for_file(filename):
     with open(filename) as inf:
-        return ast.parse(inf.read(), filename)
+        return inf.read()
+
+
+def _get_ast_for_file(filename):
+    # The rewriters below modify the tree in place, so every caller gets its
+    # own tree: only the source text is cached.
+    return ast.parse(_get_source_for_file(filename), filename)
 
 
 def _get_file_name_for_module_name(module_name):
